@@ -27,6 +27,9 @@ on eq and gt; delete drops eq, keeps lt and subtracts 1 on gt; all keys of the
 reverse map are visited. SWAP-TABLE - the renumbering closure of
 DepGraph.remove_node maps i -> last, last -> i, other -> other; the row, the
 incoming edges and the node deleted are `last`.
+INDEX-PRUNE - membership of an RList is key presence in the reverse map: every
+method that removes a position from a list of the map deletes the key when
+the list becomes empty.
 Not decided (value-level algorithms): topological sort, transitive reduction
 and closure, graft / flatten (including the known loss of ordering through an
 EMPTY nested graph, DESIGN section 4), isomorphism.
@@ -48,6 +51,7 @@ def check(ctx):
     ctx.run(depgraph.check_pair)
     ctx.run(depgraph.check_pair_shift)
     ctx.run(depgraph.check_swap_table)
+    ctx.run(depgraph.check_index_prune)
     ctx.stats['functions_analysed'] = analyzer.functions_analysed
     ctx.stats['call_sites_resolved'] = analyzer.calls_resolved
 
@@ -170,6 +174,19 @@ def variants(program):
             == 'self._edges[last]',
             lambda n: parse_stmts('del self._edges[i]')[0])
     add('wrong-row-deleted', 'mutant', DGM, delete_wrong_row, {'SWAP-TABLE'})
+
+    def tail_fast_path(tree):
+        fun = find_func(tree, 'RList.__delitem__')
+        idx = next(i for i, s_ in enumerate(fun.body)
+                   if isinstance(s_, ast.If)) + 1
+        fun.body[idx:idx] = parse_stmts(
+            'if index == len(self) - 1:\n'
+            '    self._index[self._key(self._seq.pop())].remove(index)\n'
+            '    return')
+        return True
+    add('tail-deletion-leaves-an-empty-key', 'mutant', RLM, tail_fast_path,
+        {'INDEX-PRUNE'}, note='seeded C16-2: after remove_node the node is '
+        'still "in" the graph and can never be added again')
 
     # ---- twins
     def copy_without_copies(tree):
